@@ -286,13 +286,13 @@ def gen_scenario(rng, via="api", runs=2, allow_known=True):
                       "same_named_top": rng.random() < 0.5,
                       # a stand-in of the same simple name defined conditionally (fallback of a failed import) before the
                       # definition proper
-                      "nested": rng.choice(NESTED_FORMS) if rng.random() < 0.15 else None,
+                      "nested": rng.choice(NESTED_FORMS) if rng.random() < 0.3 else None,
                       # a method target whose receiver is declared positional-only: def m(self, /, ...)
                       "receiver": "posonly" if rng.random() < 0.3 else None,
                       # a function target written with positional-or-keyword parameters: def f(a=1) rather than def f(*, a=1)
                       "style": "positional" if rng.random() < 0.3 else None,
                       # the target's name is forward-declared at the top of its module (X = None ... class X)
-                      "forward_decl": rng.choice(["none", "none-and-user", "annotated"]) if rng.random() < 0.12 else None}
+                      "forward_decl": rng.choice(["none", "none-and-user", "annotated"]) if rng.random() < 0.2 else None}
     if targets and rng.random() < 0.08:
         # the file holding the truth is ALSO named as the file of another kind: it must still never be modified
         targets[rng.choice(sorted(targets))]["alias_truth"] = True
@@ -304,10 +304,10 @@ def gen_scenario(rng, via="api", runs=2, allow_known=True):
                                  "ending": "\n", "sur_seed": rng.randint(0, 10 ** 9), "members": 0, "module_doc": False,
                                  "same_named_top": False}
     second = truth + "#2"
-    if second not in targets and rng.random() < (0.6 if via in ("cli", "main") else 0.15):
+    if second not in targets and rng.random() < (0.7 if via in ("cli", "main") else 0.15):
         # a second file of the truth's kind (whatever the kind): named after the truth on the command line, it is a target
         # like any other; more often than not it already holds a definition (an older copy of the truth)
-        targets[second] = {"pre": rng.choice(PRE_STATES + ["stale", "agreeing"]),
+        targets[second] = {"pre": "stale" if rng.random() < 0.5 else rng.choice(PRE_STATES),
                            "n_sur": rng.randint(0, 3), "position": rng.choice(["before", "between", "after"]),
                            "trailing_newline": True, "ending": "\n", "sur_seed": rng.randint(0, 10 ** 9), "members": 0,
                            "module_doc": False, "same_named_top": False}
